@@ -282,9 +282,7 @@ class Walk:
 
     def fail(self, kind, where, sha, p, ln, text, s):
         base = p[:-6] if p.endswith(".moved") else p
-        if p in self.tainted or base in self.tainted or (p + ".moved") in self.tainted:
-            sig = "pending-ai-lines-edited-by-person-before-next-checkpoint"
-        elif text is not None and (text.lstrip().startswith("hum-") or self.is_tweak_of_own(text, s)) and \
+        if text is not None and (text.lstrip().startswith("hum-") or self.is_tweak_of_own(text, s)) and \
                 (p in self.recon_taint or base in self.recon_taint):
             sig = "reconstruction-keeps-ai-on-line-rewritten-by-person"
         elif (kind == "note" and ln in self.overlap.get(sha, {}).get(p, set())) or \
